@@ -14,6 +14,7 @@ import (
 	"fmt"
 	"math/rand"
 	"os"
+	"runtime"
 	"strconv"
 	"sync"
 	"sync/atomic"
@@ -121,7 +122,7 @@ func TestConcV2Mix(t *testing.T) {
 				k := map[string]t2.AttributeValue{"h": S(fmt.Sprint(r.Intn(4)))}
 				func() {
 					defer func() { _ = recover() }()
-					switch r.Intn(16) {
+					switch r.Intn(19) {
 					case 0:
 						_ = c2.AddTable(ctx, cl, *tn, "h", "")
 					case 1:
@@ -154,6 +155,10 @@ func TestConcV2Mix(t *testing.T) {
 					case 14:
 						cl.ActivateNativeInterpreter()
 						_ = cl.GetNativeInterpreter()
+					case 15:
+						_, _ = cl.Query(ctx, &ddb2.QueryInput{TableName: tn, IndexName: aws.String("gix"), KeyConditionExpression: aws.String("g = :g"), ExpressionAttributeValues: map[string]t2.AttributeValue{":g": S(fmt.Sprint(r.Intn(3)))}})
+					case 16:
+						_, _ = cl.Scan(ctx, &ddb2.ScanInput{TableName: tn, IndexName: aws.String("gix")})
 					default:
 						it := map[string]t2.AttributeValue{"h": k["h"], "g": S(fmt.Sprint(r.Intn(3)))}
 						_, _ = cl.PutItem(ctx, &ddb2.PutItemInput{TableName: tn, Item: it})
@@ -181,7 +186,7 @@ func TestConcV1Mix(t *testing.T) {
 				k := map[string]*ddb1.AttributeValue{"h": S(fmt.Sprint(r.Intn(4)))}
 				func() {
 					defer func() { _ = recover() }()
-					switch r.Intn(14) {
+					switch r.Intn(17) {
 					case 0:
 						_ = c1.AddTable(cl, *tn, "h", "")
 					case 1:
@@ -209,6 +214,10 @@ func TestConcV1Mix(t *testing.T) {
 						_, _ = cl.GetItem(&ddb1.GetItemInput{TableName: tn, Key: k})
 					case 12:
 						_, _ = cl.UpdateItem(&ddb1.UpdateItemInput{TableName: tn, Key: k, UpdateExpression: aws.String("SET g = :g"), ExpressionAttributeValues: map[string]*ddb1.AttributeValue{":g": S("x")}})
+					case 13:
+						_, _ = cl.Query(&ddb1.QueryInput{TableName: tn, IndexName: aws.String("gix"), KeyConditionExpression: aws.String("g = :g"), ExpressionAttributeValues: map[string]*ddb1.AttributeValue{":g": S(fmt.Sprint(r.Intn(3)))}})
+					case 14:
+						_, _ = cl.Scan(&ddb1.ScanInput{TableName: tn, IndexName: aws.String("gix")})
 					default:
 						it := map[string]*ddb1.AttributeValue{"h": k["h"], "g": S(fmt.Sprint(r.Intn(3)))}
 						_, _ = cl.PutItem(&ddb1.PutItemInput{TableName: tn, Item: it})
@@ -259,6 +268,148 @@ func TestConcV1Counter(t *testing.T) {
 	}
 	if wins != 1 {
 		t.Fatalf("LINEARIZABILITY: %d of %d racing attribute_not_exists puts succeeded", wins, n)
+	}
+}
+
+// readers only, on a table that never changes: every concurrent index Query/Scan returns the sequential answer
+func TestConcV2IndexReaders(t *testing.T) {
+	cl := c2.NewClient()
+	if err := c2.AddTable(ctx, cl, "tbl", "h", ""); err != nil {
+		t.Fatal(err)
+	}
+	if err := c2.AddIndex(ctx, cl, "tbl", "gix", "g", ""); err != nil {
+		t.Fatal(err)
+	}
+	S := func(s string) t2.AttributeValue { return &t2.AttributeValueMemberS{Value: s} }
+	for i := 0; i < 24; i++ {
+		_, err := cl.PutItem(ctx, &ddb2.PutItemInput{TableName: aws.String("tbl"), Item: map[string]t2.AttributeValue{"h": S(fmt.Sprintf("k%02d", i)), "g": S(fmt.Sprint(i % 3))}})
+		if err != nil {
+			t.Fatal(err)
+		}
+	}
+	render := func(items []map[string]t2.AttributeValue) string {
+		out := ""
+		for _, it := range items {
+			out += it["h"].(*t2.AttributeValueMemberS).Value + ","
+		}
+		return out
+	}
+	query := func() (string, error) {
+		defer func() { _ = recover() }()
+		o, err := cl.Query(ctx, &ddb2.QueryInput{TableName: aws.String("tbl"), IndexName: aws.String("gix"), KeyConditionExpression: aws.String("g = :g"), ExpressionAttributeValues: map[string]t2.AttributeValue{":g": S("1")}})
+		if err != nil {
+			return "", err
+		}
+		return render(o.Items), nil
+	}
+	scan := func() (string, error) {
+		defer func() { _ = recover() }()
+		o, err := cl.Scan(ctx, &ddb2.ScanInput{TableName: aws.String("tbl"), IndexName: aws.String("gix")})
+		if err != nil {
+			return "", err
+		}
+		return render(o.Items), nil
+	}
+	wantQ, _ := query()
+	wantS, _ := scan()
+	if wantQ == "" || wantS == "" {
+		t.Fatal("empty sequential answer")
+	}
+	var wg sync.WaitGroup
+	var bad int32
+	for g := 0; g < 8; g++ {
+		wg.Add(1)
+		go func(g int) {
+			defer wg.Done()
+			for i := 0; i < 150; i++ {
+				if got, err := query(); err != nil || got != wantQ {
+					atomic.AddInt32(&bad, 1)
+				}
+				if got, err := scan(); err != nil || got != wantS {
+					atomic.AddInt32(&bad, 1)
+				}
+			}
+		}(g)
+	}
+	wg.Wait()
+	if bad != 0 {
+		t.Fatalf("LINEARIZABILITY: %d concurrent index reads of an unchanging table differ from the sequential answer", bad)
+	}
+}
+
+// racing CreateTable calls for one name: exactly one wins, and no acknowledged PutItem is lost
+func TestConcV2CreateOneWinner(t *testing.T) {
+	rounds := 300
+	if budget() > 10*time.Second {
+		rounds = 3000
+	}
+	S := func(s string) t2.AttributeValue { return &t2.AttributeValueMemberS{Value: s} }
+	for round := 0; round < rounds; round++ {
+		cl := c2.NewClient()
+		const n = 16
+		var wins, puts, ready int32
+		var wg sync.WaitGroup
+		for g := 0; g < n; g++ {
+			wg.Add(1)
+			go func(g int) {
+				defer wg.Done()
+				atomic.AddInt32(&ready, 1)
+				for atomic.LoadInt32(&ready) < n {
+					runtime.Gosched()
+				}
+				if err := c2.AddTable(ctx, cl, "tbl", "h", ""); err == nil {
+					atomic.AddInt32(&wins, 1)
+				}
+				if _, err := cl.PutItem(ctx, &ddb2.PutItemInput{TableName: aws.String("tbl"), Item: map[string]t2.AttributeValue{"h": S(fmt.Sprint(g))}}); err == nil {
+					atomic.AddInt32(&puts, 1)
+				}
+			}(g)
+		}
+		wg.Wait()
+		o, err := cl.Scan(ctx, &ddb2.ScanInput{TableName: aws.String("tbl")})
+		if err != nil {
+			t.Fatal(err)
+		}
+		if wins != 1 || int(puts) != len(o.Items) {
+			t.Fatalf("LINEARIZABILITY: round %d: %d of %d racing CreateTable calls succeeded; %d acknowledged puts, %d items stored", round, wins, n, puts, len(o.Items))
+		}
+	}
+}
+
+func TestConcV1CreateOneWinner(t *testing.T) {
+	rounds := 300
+	if budget() > 10*time.Second {
+		rounds = 3000
+	}
+	for round := 0; round < rounds; round++ {
+		cl := c1.NewClient()
+		const n = 16
+		var wins, puts, ready int32
+		var wg sync.WaitGroup
+		for g := 0; g < n; g++ {
+			wg.Add(1)
+			go func(g int) {
+				defer wg.Done()
+				atomic.AddInt32(&ready, 1)
+				for atomic.LoadInt32(&ready) < n {
+					runtime.Gosched()
+				}
+				if err := c1.AddTable(cl, "tbl", "h", ""); err == nil {
+					atomic.AddInt32(&wins, 1)
+				}
+				if _, err := cl.PutItem(&ddb1.PutItemInput{TableName: aws.String("tbl"), Item: map[string]*ddb1.AttributeValue{"h": {S: aws.String(fmt.Sprint(g))}}}); err == nil {
+					atomic.AddInt32(&puts, 1)
+				}
+			}(g)
+		}
+		wg.Wait()
+		o, err := cl.Scan(&ddb1.ScanInput{TableName: aws.String("tbl")})
+		if err != nil {
+			t.Fatal(err)
+		}
+		if wins != 1 || int(puts) != len(o.Items) {
+			t.Fatalf("LINEARIZABILITY: round %d: %d of %d racing CreateTable calls succeeded; %d acknowledged puts, %d items stored", round, wins, n, puts, len(o.Items))
+		}
 	}
 }
 
